@@ -109,6 +109,20 @@ CLAIMED = {
         "values are not decided.",
         design_ref="DESIGN.md §4 C11",
     ),
+    "C15": dict(
+        technique=TECH + "guard-table dominance over every is_answer implementation (discovered from the impl "
+        "table), delivery-on-matching-edge in the stream demultiplexer and datagram loop (coroutine MIR), slot "
+        "bookkeeping dominance in the outstanding-query table, TC-fallback edge",
+        text="Decides structural necessary conditions of C15: every ComposeRequest/ComposeRequestMulti::is_answer "
+        "returns true only behind QR set and ID equal, the header-only shortcut additionally behind an error RCODE "
+        "and four zero counts, otherwise behind QDCOUNT equality with the question-section comparison as result; "
+        "TSIG wrappers delegate; stream::demux_reply and the datagram loop construct Ok(answer) only on the true "
+        "edge of is_answer/check_stream and look the waiter up by the reply's ID; the slot is removed before "
+        "delivery, re-inserted only for streams; Queries adjusts count only when a slot was actually vacated / "
+        "filled and bounds indices to 16 bits; a truncated datagram answer is retried over the stream and never "
+        "returned. Schedules, timeouts and exactly-once under cancellation are not decided.",
+        design_ref="DESIGN.md §4 C15",
+    ),
     "C17": dict(
         technique=TECH + "finite decision-tree enumeration of Serial::partial_cmp against the RFC 1982 "
         "table, guard dominance for add, who-may-compare-raw audit of all serial/timestamp uses",
